@@ -8,7 +8,7 @@ dictionaries {attribute -> sublist of its values (the empty list included)} over
 
 * A (structures exhaustive): every Hypergraph on nodes 0..n-1, n <= 4, with <= 3 hyperedges of size 1..4 (quick:
   n <= 3 with <= 3 and n = 4 with <= 2), one seeded metadata / weight assignment each, x 8 node criteria x 8
-  hyperedge criteria x mode in {keep, remove} x keep_edges in {False, True}.
+  hyperedge criteria x mode in {keep, remove} x keep_edges in {False, True}; n = 3 once more with string labels.
 * B (criteria exhaustive): three fixed 5-node hypergraphs whose items carry all 16 metadata dicts between them;
   all 82 node criteria alone, all 82 hyperedge criteria alone, x mode x keep_edges; all 82 x 82 pairs in thorough
   (a seeded sample of 1500 pairs per hypergraph in quick).
@@ -16,7 +16,7 @@ dictionaries {attribute -> sublist of its values (the empty list included)} over
   weighted or not, an extra irrelevant attribute, isolated nodes), random criteria (also over an attribute nobody
   has), random mode / keep_edges.
 * TemporalHypergraph and MultiplexHypergraph: every structure on <= 3 nodes with <= 2 hyperedges of size 1..3 over two
-  times / layers x the 8 x 8 x 2 x 2 family, plus random cases.  Their remove_node / remove_edge are known to be
+  times / layers (quick: 3 nodes with <= 1) x the 8 x 8 x 2 x 2 family, plus random cases.  Their remove_node / remove_edge are known to be
   broken (TypeError); a filter run that dies there is reported under the key
   "filter_hypergraph[<Class>]:does not raise on admissible input|via <method>".
 
@@ -67,7 +67,7 @@ PROPERTY = "C19"
 RAISES = "does not raise on admissible input"
 F_NODES = "surviving nodes = exactly those the node criteria keep"
 F_EDGES = "surviving hyperedges = exactly those the criteria keep without a removed node"
-F_EDGES_K = "keep_edges: surviving hyperedges = those the criteria keep, shrunk by the removed nodes"
+F_EDGES_K = "keep_edges: surviving hyperedges = the kept ones shrunk by the removed nodes"
 F_NMD = "metadata of surviving nodes unchanged"
 F_W = "weights of surviving hyperedges unchanged"
 F_EMD = "metadata of surviving hyperedges unchanged"
